@@ -801,14 +801,17 @@ class Hugr(Mapping[Node, NodeData], Generic[OpVarCov]):
             node: Node, offset: PortOffset | None, direction: Direction
         ) -> PortOffset:
             # the state order port is stored as offset -1
-            if offset == hugr._order_port_offset(node, direction):
+            order_offset = hugr._order_port_offset(node, direction)
+            if offset is None:
+                # an edge without offset is attached to the first port that is
+                # not a dataflow port: the state order port, or the (first)
+                # control flow port of a basic block
+                return -1 if order_offset is not None else 0
+            if offset == order_offset:
                 return -1
-            assert offset is not None
             return offset
 
         for (src_node, src_offset), (dst_node, dst_offset) in serial.edges:
-            if src_offset is None or dst_offset is None:
-                continue
             src = Node(src_node, _metadata=get_meta(src_node))
             dst = Node(dst_node, _metadata=get_meta(dst_node))
             hugr.add_link(
